@@ -31,7 +31,7 @@ GROUPS = {'vouch': ['g1', 'g2'], 'vouch-nogroups': []}
 
 def plan(tier):
     return {
-        'level': 'exploration', 'shards': 16, 'budget_s': 60 if tier == 'quick' else 400, 'exhaustive': True,
+        'level': 'exploration', 'shards': 16, 'budget_s': 120 if tier == 'quick' else 400, 'exhaustive': True,
         'rule': 'exhaustive product: 10 certificates (absent; 0/1/2 common names; EKU absent/serverAuth/'
                 'clientAuth/both) x enable_tls_client_auth x plug-in configurations (none; disabled; unsupported '
                 'name; every 1- and 2-block and a sample of 3-block sequences over 11 SLUGS behaviours) x a request '
